@@ -458,7 +458,13 @@ class SkipgramVectorizer(BaseEstimator, TransformerMixin):
             tuple(*self.kernel_args.values()),
         )
 
-        base_matrix = scipy.sparse.coo_matrix((data, (row, col)))
+        # Skip-grams never seen at fit time have no column; the width is the one fixed at fit time.
+        n_columns = self._column_is_kept.shape[0]
+        known = col < n_columns
+        base_matrix = scipy.sparse.coo_matrix(
+            (data[known], (row[known], col[known])),
+            shape=(len(token_sequences), n_columns),
+        )
         result = base_matrix.tocsc()[:, self._column_is_kept].tocsr()
 
         return result
